@@ -473,12 +473,12 @@ def specTruncate (f : Bytes) (size : Nat) : Bytes := f.take size ++ zeros (size 
 /-! ### Well-formedness -/
 
 /-- A stored segment lies inside its block and the block is in Keep with the advertised size; a
-mem segment is no longer than `max`; a pending flush whose snapshot length still matches has its
-snapshot (= the current buffer) in Keep. -/
+mem segment is no longer than `max`; a pending flush was started when the buffer was at least as
+long as now, and if the length still matches, the snapshot (= the current buffer) is in Keep. -/
 def SegWF (max : Nat) (hash : Bytes → Loc) (st : Store) : Seg → Prop
   | Seg.mem buf fl =>
     0 < buf.length ∧ buf.length ≤ max ∧
-    (∀ i l, fl = Flush.pending i l → l = buf.length → st (hash buf) = some buf)
+    (∀ i l, fl = Flush.pending i l → buf.length ≤ l ∧ (l = buf.length → st (hash buf) = some buf))
   | Seg.stored loc size off l =>
     0 < l ∧ off + l ≤ size ∧ ∃ b, st loc = some b ∧ b.length = size
 
